@@ -16,7 +16,7 @@ func c04Cfg(rng *rand.Rand) hCfg {
 	c := hCfg{NAssoc: 1 + rng.Intn(2), MaxSess: 2 + rng.Intn(5), Steps: 10 + rng.Intn(10), PChoose: 30, PAlloc: 25, PSDF: 50, Canonical: true,
 		MaxPortWidth: 2000, MaxPairs: 2, MaxQER: 2, Negatives: true, SafeQER: true, SamePrecPair: true, UP4: true, EstOnly: true,
 		GNBs:  []string{"198.18.0.10", "198.18.0.11", "198.18.0.12"},
-		Mods:  []string{"upfar", "upfar", "upqer", "cpseid"},
+		Mods:  []string{"upfar", "upfar", "upqer", "cpseid", "uppdr-same"},
 		QFIs:  []uint8{0, 1, 5, 9, 9, 32, 63},
 	}
 	if rng.Intn(2) == 0 {
@@ -83,7 +83,16 @@ func c04Hooks(res *vResult, cfg mUP4Cfg) func(h *hRunner) {
 				if m.Shape == "update-far-leaves-old-tunnel-peer" {
 					shape = m.Shape
 				}
-				res.violate(m.Rule, shape, "after "+op.Desc+": "+m.What, map[string]interface{}{"trace": append([]string{}, h.trace...), "all": mMismatchText(ms)})
+				rule := m.Rule
+				if h.cfg.KeyChangeUP4 && h.sawKeyChange {
+					// one root cause (recorded finding): the UP4 translator handles an Update PDR by MODIFYing the entries
+					// the updated PDR denotes; the entries under the PDR's previous key are neither removed nor re-keyed
+					rule, shape = "C04.R4", "up4-update-pdr-key-change"
+				}
+				res.violate(rule, shape, "after "+op.Desc+": "+m.What, map[string]interface{}{"trace": append([]string{}, h.trace...), "all": mMismatchText(ms)})
+				if rule == "C04.R4" && shape == "up4-update-pdr-key-change" {
+					break
+				}
 			}
 			for _, v := range h.a.p4.takeC16() {
 				res.note("P4Info conformance (judged by C16): " + v)
@@ -153,7 +162,38 @@ func TestVerif_C04(t *testing.T) {
 		a.stop(vStopWatchdog)
 		a = nil
 	}
+	c04KeyChange(res)
 	c04Restart(res)
+}
+
+// c04KeyChange: Update PDRs that change the PDR's match key (F-TEID, SDF filter) on UP4. Outside the envelope of the
+// main histories because of a recorded finding; this family keeps the finding visible and notices when it is gone.
+func c04KeyChange(res *vResult) {
+	n := vEnv.pick(12, 200)
+	for k := 0; k < n; k++ {
+		idx := 6000000 + k
+		if !vEnv.mine(idx) {
+			continue
+		}
+		rng := vEnv.rng("c04k", k)
+		o := c04Opts(rand.New(rand.NewSource(int64(k)*7919+vEnv.seed)), vEnv.addr(1))
+		a, err := vStartAgent(o)
+		if err != nil {
+			res.inconclusive("agent start: " + err.Error())
+			return
+		}
+		ucfg := c04UP4Cfg(o)
+		cfg := c04Cfg(rng)
+		cfg.NAssoc, cfg.Steps, cfg.Negatives, cfg.KeyChangeUP4 = 1, 8, false, true
+		cfg.Mods = []string{"uppdr"}
+		res.begin(idx, fmt.Sprintf("c04 key-changing Update PDR %d", k), nil)
+		h := &hRunner{res: res, a: a, rng: rng, cfg: cfg, n3: ucfg.N3, n6: 0, base: 50000 + k*40%9000}
+		c04Hooks(res, ucfg)(h)
+		h.run()
+		res.eval(1)
+		res.event("key_changing_update_pdr_histories", 1)
+		a.stop(vStopWatchdog)
+	}
 }
 
 func c04Restart(res *vResult) {
